@@ -100,7 +100,12 @@ func c10Gen(c *engine.C) engine.Case {
 		for i := 0; i < n; i++ {
 			switch {
 			case at == "comments" && i%3 == 1:
-				r = append(r, jg.St(jg.T("// filler comment")))
+				if layout.JoinMembers || layout.JoinStmts {
+					// statements share a line: a line comment would swallow the code that follows it
+					r = append(r, jg.St(jg.T("/* filler comment */")))
+				} else {
+					r = append(r, jg.St(jg.T("// filler comment")))
+				}
 			case at == "blanks" && i%3 == 1:
 				r = append(r, jg.St(jg.T("")))
 			default:
